@@ -99,6 +99,36 @@ Theorem C17_lock_unlock_same_idx :
 Proof. exact lock_unlock_same_idx. Qed.
 Print Assumptions C17_lock_unlock_same_idx.
 
+(* coin type: the wallet's coin (address text form, bip44 coin number) is part of
+   the wallet and survives every operation, save + reload included *)
+Theorem C17_batch_independent_coin :
+  forall (K : Type) (child : coin -> nat -> nat -> K) (ops : list (iop K)) (w : cwallet K),
+    chains_ok K (child (cw_coin w)) (cw_chains w) ->
+    cw_coin (cw_run K child ops w) = cw_coin w
+    /\ chains_ok K (child (cw_coin w)) (cw_chains (cw_run K child ops w)).
+Proof. exact batch_independent_coin. Qed.
+Print Assumptions C17_batch_independent_coin.
+
+Theorem C17_reload_same_coin :
+  forall (K : Type) (child : coin -> nat -> nat -> K) (ops1 ops2 : list (iop K)) (w : cwallet K),
+    cw_run K child (ops1 ++ ISaveReload :: ops2) w = cw_run K child (ops1 ++ ops2) w.
+Proof. exact reload_same_coin. Qed.
+Print Assumptions C17_reload_same_coin.
+
+Theorem C17_batch_independent_det_coin :
+  forall (S Sec K : Type) (step : S -> S * Sec) (key_of : coin -> Sec -> K) (c : coin) (s : S) (ops : list (dop Sec)),
+    let w := cd_run S Sec step ops {| cd_coin := c; cd_w := d_init S Sec s |} in
+    cd_coin w = c
+    /\ cd_entries S Sec K key_of w = map (key_of c) (derive_all S Sec step s (d_count S Sec step s ops)).
+Proof. exact batch_independent_det_coin. Qed.
+Print Assumptions C17_batch_independent_det_coin.
+
+Theorem C17_reload_same_det_coin :
+  forall (S Sec : Type) (step : S -> S * Sec) (ops1 ops2 : list (dop Sec)) (w : cdwallet S Sec),
+    cd_run S Sec step (ops1 ++ DSaveReload :: ops2) w = cd_run S Sec step (ops1 ++ ops2) w.
+Proof. exact reload_same_det_coin. Qed.
+Print Assumptions C17_reload_same_det_coin.
+
 (* every entry's address is the address of its public key, and its public key is
    the one of its secret key where one is held; for bip44 this needs the BIP32
    fact that public and private derivation commute (premise; subject of C16) *)
